@@ -1,10 +1,9 @@
 """C19 -- see DESIGN.md section 5.  Deductive targets are added below the bounded import."""
 PROP = "C19"
 from . import progress_contracts as pc
-LEVEL = "other"
-EXPLANATION = "under construction: bounded run-time contract checks on the real code; deductive obligations are being added"
-UNDER_CONSTRUCTION = True
-NOT_APPLICABLE = "check under construction in this round (see DESIGN.md section 5 for the plan); not claimed yet"
+LEVEL = 'proof'
+EXPLANATION = ('Deductive (sequential reduction, no schedule is enumerated): every frame reaches the stream in exactly ONE write (so frames of two threads cannot mix at write granularity); in manual mode a redraw happens only when the interval has elapsed and re-arms the timer, hence redraws are at least `interval` apart.  Bounded: manual call sequences under a substituted clock, auto() lifecycle with real threads (thread dead afterwards, end message last), atomicity witness replayed without threads.')
+LEVEL_NOTE = ('assumes: single stream writes are atomic (the granularity the property names); the spinner thread only calls advance(); _display() = placeholder expansion (re.sub, external) + _overwrite; lifecycle (set/join on every exit) is bounded only')
 try:
     from .C19_bounded import bounded, BOUNDED_RULE  # noqa: F401
     try:
